@@ -214,7 +214,7 @@ func c08r2(w *World, rr *RuleRun) {
 	}{{h.reply, `"r"`, "R"}, {h.sendError, `"e"`, "E"}} {
 		// the goroutine closure that builds and sends
 		var cl *ssa.Function
-		for _, a := range b.fn.AnonFuncs {
+		for _, a := range append(append([]*ssa.Function{}, b.fn.AnonFuncs...), w.Region[b.fn]...) {
 			if len(w.literalStores(a, msgT)) > 0 {
 				cl = a
 			}
@@ -302,9 +302,9 @@ func c08r2(w *World, rr *RuleRun) {
 		fn := enclosingNamed(st.Parent())
 		switch {
 		case v.IsConst(`"r"`):
-			rr.At(w, st, `Msg{Y:"r"} built only by reply`, fn == h.reply, "in "+shortFuncName(fn))
+			rr.At(w, st, `Msg{Y:"r"} built only by reply`, fn == h.reply || w.withinUp(fn, h.reply), "in "+shortFuncName(fn))
 		case v.IsConst(`"e"`):
-			rr.At(w, st, `Msg{Y:"e"} built only by sendError`, fn == h.sendError, "in "+shortFuncName(fn))
+			rr.At(w, st, `Msg{Y:"e"} built only by sendError`, fn == h.sendError || w.withinUp(fn, h.sendError), "in "+shortFuncName(fn))
 		}
 	}
 }
